@@ -2,6 +2,13 @@ HOOK_COMMITS = ["d197d80"]
 NOTES = "All checks are generated-input search (proptest choice sequences, exhaustive small-domain enumeration) against explicit oracles; see DESIGN.md. Exit 2 = inconclusive (build failure / watchdog), never a violation."
 NOT_CLAIMED = {}
 CLAIMED = {
+ "C05": {
+  "technique": "fuzzing: proptest string/token/mutation generators + stress inputs in child processes + libFuzzer (thorough), oracle inside the target",
+  "text": "Exploration: random Unicode strings, token soups over the language alphabet, valid generated filters with 1-4 character/token edits, and 1e5-long chains / 1e5-deep nestings (child process, 8 MiB stack) are fed to Scheme::parse and Scheme::parse_value; every outcome must be an AST (serialisable) or an error whose line/column/caret range lie inside the input line; panics, aborts and stack overflows are violations. The thorough tier adds 8 coverage-guided libFuzzer jobs with the same oracle inside the target.",
+  "note": "Stack budget 8 MiB in the harness profile; a hang is reported as inconclusive (watchdog), not as a violation; libFuzzer needs the nightly toolchain (if its build fails the campaign is skipped and the evidence says so).",
+  "ref": "DESIGN.md section 3, C05",
+ },
+
  "C02": {
   "technique": "property-based testing: proptest-generated index/map-each/quantifier filters and value expressions against a reference evaluator",
   "text": "Exploration: grammar-directed well-typed filters over container fields nested to depth 3 ([n], [\"k\"], [*] in every position, bool-array logic, any/all incl. direct application to absent/empty arrays) on 6 generated contexts each, plus star-free value expressions; all three engine evaluation strategies are compared against one independent fold-based reference. Holds on everything explored.",
